@@ -16,15 +16,38 @@ def find_async_fn(F, name):
     return fn, co
 
 
-def sender_fn(F):
-    """The async fn of the helper module that calls RequestBuilder::send (semantic anchor: not by name)."""
+def entry_fns(F):
+    """paths of the helper module's functions that code outside the module can call (the emitted client methods do)"""
     out = []
-    for b in F.lib.bodies:
-        if not b["path"].startswith(HELPERS_MOD) or not b.get("mir"):
+    for f in F.lib.items.get("fns", []):
+        if f.get("module") != HELPERS_MOD or f["path"].startswith("<"):
             continue
-        B = M.Body(b)
-        if B.calls_to("reqwest::RequestBuilder::send"):
+        vis = f.get("vis") or ""
+        private = vis.startswith("Restricted(") and vis.rstrip(")").endswith("::" + HELPERS_MOD)
+        if not private:
+            out.append(f["path"])
+    return out
+
+
+def is_entry(F, path):
+    return path in entry_fns(F)
+
+
+def sender_fn(F):
+    """The entry function of the helper module that performs the exchange (semantic anchor: not by name): its body — the coroutine
+    of an async fn — with the module's private helpers and awaited private async fns taken in calls RequestBuilder::send. Other entry
+    functions stay calls (an entry that only wraps the sender is not a second sender)."""
+    from engine.rulekit import inline as I
+    entries = entry_fns(F)
+    out = []
+    for e in entries:
+        b = F.lib.body(e + "::{closure#0}") or F.lib.body(e)
+        if b is None or not b.get("mir"):
+            continue
+        ib = I.Inliner(F.lib, stop=lambda p, e=e: p != e and p in entries).body(b)
+        if M.Body(ib).calls_to("reqwest::RequestBuilder::send"):
             out.append(b)
+    # fail closed: a function that sends but is reachable from no entry's inlined body is still reported as a sender
     return out
 
 
@@ -35,7 +58,12 @@ def one(calls):
 def origin_calls(B, operand, identity=FLOW_IDENTITY):
     """Set of (bb, callee_decl) of the calls an operand originates from (through identity steps)."""
     out = []
+    seen = set()
     for o in M.trace(B, operand, identity):
+        key = (o.bb, M.Body.callee_decl(o.term)) if o.kind == "call" else (None, o.kind, repr(o))
+        if key in seen:
+            continue   # the same site reached along several def-use chains
+        seen.add(key)
         if o.kind == "call":
             out.append((o.bb, M.Body.callee_decl(o.term), o))
         else:
